@@ -136,9 +136,10 @@ impl RawMemoryFreeList {
     }
 
     fn current_capacity(&self) -> i32 {
-        let list_blocks = conversions::bytes_to_pages_up(self.high_water - self.base) as i32
-            / self.pages_per_block;
-        self.units_in_first_block() + (list_blocks - 1) * self.units_per_block()
+        // Count every mapped unit rather than whole blocks: the last growth step is clamped to
+        // `limit`, so the table may end with a partial block.
+        let mapped_units = ((self.high_water - self.base) >> LOG_BYTES_IN_UNIT) as i32;
+        self.units_in_first_block() + (mapped_units - self.units_per_block())
     }
 
     pub fn grow_freelist(&mut self, units: i32) -> bool {
